@@ -196,6 +196,13 @@ def match_case(draw):
     how = draw(st.sampled_from(['var', 'range', 'lit']))
     if kind.startswith('num'):
         base = st.one_of(st.integers(-20, 20), st.integers(-20, 20).map(lambda v: v / 2.0), st.integers(-10 ** 6, 10 ** 6))
+        if draw(st.integers(0, 4)) == 0:
+            # distinct numbers that are very close in relative terms (consecutive large integers, neighbouring doubles)
+            c = draw(st.sampled_from([1700000000, 9007199254740000, 123456789012, 2.0, 1e9, 0.1, -5000000000]))
+            if isinstance(c, int):
+                base = st.integers(c - 3, c + 3)
+            else:
+                base = st.integers(-3, 3).map(lambda k, c=c: c * (1 + k * 2e-11))
         arr = draw(st.lists(base, min_size=1, max_size=8))
         if kind == 'num1':
             arr = sorted(arr)
@@ -281,6 +288,55 @@ def match_classes(case):
     return out
 
 
+# ---------------------------------------------------------------- a host list that changes between evaluations
+
+edit_s = st.one_of(st.tuples(st.just('insert'), st.integers(0, 8), st.integers(1, 60)), st.tuples(st.just('set'), st.integers(0, 8), st.integers(1, 60)), st.tuples(st.just('sort')), st.tuples(st.just('reverse')),
+                   st.tuples(st.just('pop'), st.integers(0, 8)), st.tuples(st.just('refill'), st.lists(st.integers(1, 60), min_size=1, max_size=6)), st.tuples(st.just('lookup'), st.integers(1, 60))).map(list)
+hist_case = st.fixed_dictionaries({'start': st.lists(st.integers(1, 60), min_size=1, max_size=6), 'ops': st.lists(edit_s, min_size=2, max_size=10), 'two': st.booleans()})
+
+
+def check_host_history(case):
+    from ..env import hot
+    prices = list(case['start'])
+    P = hot().Parser()
+    P.set_variable('v_prices', prices)
+    Q = hot().Parser()
+    Q.set_variable('v_prices', prices)
+    for step, op in enumerate(case['ops']):
+        k = op[0]
+        if k == 'insert':
+            prices.insert(min(op[1], len(prices)), op[2])
+        elif k == 'set' and prices:
+            prices[op[1] % len(prices)] = op[2]
+        elif k == 'sort':
+            prices.sort()
+        elif k == 'reverse':
+            prices.reverse()
+        elif k == 'pop' and len(prices) > 1:
+            prices.pop(op[1] % len(prices))
+        elif k == 'refill':
+            del prices[:]
+            prices.extend(op[1])
+        elif k == 'lookup':
+            x = op[1]
+            X = Q if (case['two'] and step % 2) else P
+            r = X.parse('MATCH(%d,v_prices,0)' % x)
+            pos = [i + 1 for i, a in enumerate(prices) if a == x][:1]
+            d = 'host list is now %r (after %r): ' % (prices, case['ops'][:step])
+            if pos:
+                if r['error'] is not None or r['result'] != pos[0]:
+                    raise Violation(d + 'MATCH(%d, list, 0) -> %r, expected %d' % (x, r['error'] or r['result'], pos[0]), r['error'] or enc(r['result']), pos[0])
+                r2 = X.parse('INDEX(v_prices,MATCH(%d,v_prices,0))' % x)
+                if r2['error'] is not None or r2['result'] != x:
+                    raise Violation(d + 'INDEX(list, MATCH(%d, list, 0)) -> %r' % (x, r2['error'] or r2['result']), r2['error'] or enc(r2['result']), x)
+            elif r['error'] != '#N/A':
+                raise Violation(d + 'MATCH(%d, list, 0) -> %r, expected #N/A' % (x, r['error'] or r['result']), r['error'] or enc(r['result']), '#N/A')
+            for i in range(1, len(prices) + 1):
+                ri = X.parse('INDEX(v_prices,%d)' % i)
+                if ri['error'] is not None or ri['result'] != prices[i - 1]:
+                    raise Violation(d + 'INDEX(list,%d) -> %r' % (i, ri['error'] or ri['result']), ri['error'] or enc(ri['result']), prices[i - 1])
+
+
 vals_s = st.lists(st.one_of(st.integers(-50, 50), st.text(st.sampled_from('abc'), max_size=3), st.booleans(), st.none().map(lambda _: 0.5)), min_size=1, max_size=10)
 
 LAWS = [
@@ -299,6 +355,11 @@ LAWS = [
         nontrivial=lambda c: len(c['arr']) >= 2,
         rule='MATCH type 0 on unsorted numbers and on text (case-insensitive, * and ? wildcards, other punctuation literal), type 1 on ascending and type -1 on descending numeric arrays with duplicates, '
              'lookup value present / absent / below / above all items; INDEX(arr, MATCH(x, arr, 0)) returns the matched item'),
+    Law('host_list_history', check_host_history, strategy=hist_case, quick=1000, thorough=40000, shards=(4, 16), key=lambda c: 'host-list-history',
+        nontrivial=lambda c: sum(1 for o in c['ops'] if o[0] == 'lookup') >= 2 and any(o[0] != 'lookup' for o in c['ops']),
+        classes=lambda c: (('edit-between-lookups' if any(c['ops'][i][0] == 'lookup' and any(o[0] != 'lookup' for o in c['ops'][i + 1:]) and any(o[0] == 'lookup' for o in c['ops'][i + 1:]) for i in range(len(c['ops']))) else 'other'),),
+        required=('edit-between-lookups',),
+        rule='a host list bound as a variable on two parsers, 2-10 operations - edit the list in place (insert, assign, sort, reverse, pop, clear and refill) or look a value up: every MATCH(x, list, 0), INDEX(list, MATCH(..)) and INDEX(list, i) answers from the list as it is now'),
 ]
 
 LEVEL_TEXT = 'Hypothesis exploration with arrays of distinct tagged values so that "some other element" is detectable, over all index positions from -10 to size+10 and all three ways of supplying an array; MATCH against a reference scan written from the statement.'
